@@ -1920,7 +1920,11 @@ class Run:
         j = z3.Int(H.fresh_name("ext_j"))
         e = z3.Const(H.fresh_name("ext_e"), es)
         M = H.mem_fn(es)
-        self.assume(z3.ForAll([j], z3.And(z3.Implies(z3.And(0 <= j, j < n1), z3.Select(new, j) == z3.Select(e1, j)), z3.Implies(z3.And(0 <= j, j < n2), z3.Select(new, n1 + j) == z3.Select(e2, j))), patterns=[z3.Select(new, j)]))
+        # the same fact stated for both directions of use: by position in the new list, and by position in `other`
+        self.assume(z3.ForAll([j], z3.And(z3.Implies(z3.And(0 <= j, j < n1), z3.Select(new, j) == z3.Select(e1, j)), z3.Implies(z3.And(n1 <= j, j < n1 + n2), z3.Select(new, j) == z3.Select(e2, j - n1))), patterns=[z3.Select(new, j)]))
+        self.assume(z3.ForAll([j], z3.Implies(z3.And(0 <= j, j < n2), z3.Select(new, n1 + j) == z3.Select(e2, j)), patterns=[z3.Select(e2, j)]))
+        # every indexed element of `other` is a member of it (consequence of the definition of membership)
+        self.assume(z3.ForAll([j], z3.Implies(z3.And(0 <= j, j < n2), M(e2, n2, z3.Select(e2, j))), patterns=[z3.Select(e2, j)]))
         self.assume(z3.ForAll([e], M(new, n1 + n2, e) == z3.Or(M(e1, n1, e), M(e2, n2, e)), patterns=[M(new, n1 + n2, e)]))
         self.note_written([hp._upd(t, "elem", c.z, new)])
         name, a = hp.carr(t, "len")
